@@ -3,6 +3,13 @@
 TIER=${1:-quick}; shift
 IDS=${@:-C01 C02 C03 C04 C05 C06 C07 C08 C09 C10 C11 C12 C13 C14 C15 C16 C17 C18 C19 C20}
 cd "$(dirname "$0")/.."
+# under `vp run --with-repo` the snapshot of /repo is at $VP_RUN_REPO: build against it so that edits to /repo
+# (seed trials) made while this run is going do not disturb it
+if [ -n "${VP_RUN_REPO:-}" ]; then
+  sed -i "s#\"/repo/#\"$VP_RUN_REPO/#g" harness/mmv/Cargo.toml
+  export VERIF_REPO="$VP_RUN_REPO"
+  echo "building against $VP_RUN_REPO"
+fi
 for id in $IDS; do
   s=$(date +%s)
   VERIF_DUMP_FAILS=target/fails-$id-$TIER.jsonl ./check $id --tier $TIER > target/out-$id-$TIER.log 2>&1; rc=$?
